@@ -2,7 +2,9 @@
 //! compared with (a) the Lean model `RbModel.Files` (outputs, error codes, bytes on disk) and (b) independent
 //! property oracles written here (round trips, APPEND prefix, PUT/GET table, handle protocol, console = file
 //! splitting; several FIELD lists on one RANDOM handle: byte-level record table + the bytes on disk, with
-//! shrinking of a failing history).
+//! shrinking of a failing history; family `multi`: interleaved histories with 2..3 handles open at the same time on
+//! two files, every prefix a case of its own = comparison after every single operation, frame check on the real
+//! bytes, shrinker).
 
 use std::collections::HashMap;
 use std::path::PathBuf;
@@ -411,6 +413,10 @@ struct Case {
     disk_checks: Vec<(usize, u8, usize, usize)>,
     /// FIELD families: the plan the case was built from (for shrinking)
     plan: Option<FPlan>,
+    /// family `multi`: number of the interleaved history this case is a prefix of
+    hist: Option<usize>,
+    /// family `multi`: index of the case that is the prefix one operation shorter (the state before the last operation)
+    prev: Option<usize>,
 }
 
 impl Case {
@@ -1143,6 +1149,7 @@ fn build_fields_case(plan: &FPlan) -> Option<Case> {
         tags,
         disk_checks,
         plan: Some(plan.clone()),
+        ..Default::default()
     })
 }
 
@@ -1441,6 +1448,220 @@ fn random_field_plan(rng: &mut Rng) -> FPlan {
     FPlan { family: "fields-random", handles, acts }
 }
 
+// ---- family `multi`: interleaved histories over 2..3 handles open at the same time on two files -------------
+//
+// The histories are mostly protocol-conforming (so that several handles really are open together and data
+// flows): a closed handle is opened on A.TXT or B.TXT in a random mode, an open one is used according to its
+// mode (PRINT # / LINE INPUT # / INPUT # / EOF / FIELD / LSET / PUT / GET) or closed (alone or with all others);
+// text-only histories also contain protocol violations (errors trapped, the run continues).  EVERY PREFIX of a
+// history is a case of its own: outputs, final Result and the bytes of every file after every single operation
+// are compared with the model (`Thm.C18Multi` proves that model refines the abstract machine with several
+// open handles), and the bytes on disk before and after the last operation are compared with each other for
+// the frame property (only the file the operation's handle is open on may change).  A failing history is shrunk.
+
+fn multi_history(rng: &mut Rng) -> (Init, Vec<Op>, bool) {
+    let with_random = rng.chance(1, 2);
+    let nh = rng.range(2, 3) as u32;
+    let mut init: Init = vec![];
+    if rng.chance(2, 3) {
+        init.push((0, Some(rng.pick(&[&b"one\r\ntwo, 3\r\n"[..], b"k", b"a,b\r\n", b""]).to_vec())));
+    }
+    if rng.chance(1, 2) {
+        init.push((1, Some(b"B1,B2\r\nB3\r\n".to_vec())));
+    }
+    let mut exists = [init.iter().any(|e| e.0 == 0), init.iter().any(|e| e.0 == 1)];
+    // handle -> (file, mode, has a FIELD list)
+    let mut st: Vec<Option<(u8, Md, bool)>> = vec![None; 4];
+    let len = rng.range(4, 14);
+    let mut ops: Vec<Op> = vec![];
+    for _ in 0..len {
+        let h = rng.range(1, nh as i64) as u32;
+        let violate = !with_random && rng.chance(1, 8);
+        let v = rng.below(2) as u8;
+        match st[h as usize] {
+            None => {
+                if violate {
+                    ops.push(match rng.below(4) {
+                        0 => Op::Print { h, items: vec![b"no".to_vec()], nl: true },
+                        1 => Op::Line { h, v },
+                        2 => Op::Eof { h },
+                        _ => Op::Close(vec![h]),
+                    });
+                    continue;
+                }
+                let f = rng.below(2) as u8;
+                let mut m = *rng.pick(if with_random { &[Md::I, Md::O, Md::A, Md::R, Md::R][..] } else { &[Md::I, Md::I, Md::O, Md::A, Md::A][..] });
+                if m == Md::I && !exists[f as usize] {
+                    m = Md::A;
+                }
+                ops.push(Op::Open { h, n: Nm::P(f), m, len: if m == Md::R { 4 } else { 0 } });
+                st[h as usize] = Some((f, m, false));
+                if m != Md::I {
+                    exists[f as usize] = true;
+                }
+            }
+            Some((f, m, fielded)) => {
+                if rng.chance(1, 6) {
+                    if rng.chance(1, 4) {
+                        ops.push(Op::Close(vec![]));
+                        for e in st.iter_mut() {
+                            *e = None;
+                        }
+                    } else {
+                        ops.push(Op::Close(vec![h]));
+                        st[h as usize] = None;
+                    }
+                    continue;
+                }
+                if violate {
+                    ops.push(match (rng.below(2), m) {
+                        (0, _) => Op::Open { h, n: Nm::P(1 - f), m: Md::O, len: 0 },
+                        (_, Md::I) => Op::Print { h, items: vec![b"no".to_vec()], nl: true },
+                        _ => Op::Line { h, v },
+                    });
+                    continue;
+                }
+                let (v0, v1) = ((2 * h) as u8, (2 * h + 1) as u8);
+                match m {
+                    Md::I => ops.push(match rng.below(4) {
+                        0 | 1 => Op::Line { h, v },
+                        2 => Op::Input { h, v },
+                        _ => Op::Eof { h },
+                    }),
+                    Md::O | Md::A => {
+                        let n = rng.range(1, 2);
+                        ops.push(Op::Print { h, items: (0..n).map(|_| rng.pick(POOL).to_vec()).collect(), nl: rng.chance(3, 4) });
+                    }
+                    Md::R => {
+                        if !fielded || rng.chance(1, 8) {
+                            let fields = match rng.below(3) {
+                                0 => vec![(2, v0), (2, v1)],
+                                1 => vec![(4, v0)],
+                                _ => vec![(1, v0), (2, v1)],
+                            };
+                            ops.push(Op::Field { h, fields });
+                            st[h as usize] = Some((f, m, true));
+                        } else {
+                            ops.push(match rng.below(7) {
+                                0 | 1 => Op::Lset { v: if rng.chance(1, 2) { v0 } else { v1 }, val: rng.pick(POOL).to_vec() },
+                                2 | 3 => Op::Put { h, n: rng.range(1, 3) as u32 },
+                                4 => Op::Get { h, n: rng.range(1, 3) as u32 },
+                                5 => Op::Show(v0),
+                                _ => Op::Show(v1),
+                            });
+                        }
+                    }
+                }
+            }
+        }
+    }
+    (init, ops, !with_random)
+}
+
+/// `k=bytes;k=d;...` -> map
+fn parse_listing(l: &str) -> HashMap<String, String> {
+    l.split(';').filter(|e| !e.is_empty()).filter_map(|e| e.split_once('=')).map(|(k, b)| (k.to_owned(), b.to_owned())).collect()
+}
+
+/// The one file the LAST operation of `ops` may change (None = none), given which OPENs succeeded in the run.
+fn frame_allowed(ops: &[Op], blocks: &[Vec<u8>]) -> Option<Nm> {
+    let mut map: HashMap<u32, Nm> = HashMap::new();
+    for (i, op) in ops.iter().enumerate() {
+        let last = i + 1 == ops.len();
+        match op {
+            Op::Open { h, n, .. } => {
+                if last {
+                    return Some(*n);
+                }
+                if blocks.get(i).is_some_and(|b| b.is_empty()) {
+                    map.insert(*h, *n);
+                }
+            }
+            Op::Close(hs) => {
+                if hs.is_empty() {
+                    map.clear();
+                } else {
+                    for h in hs {
+                        map.remove(h);
+                    }
+                }
+            }
+            Op::Print { h, .. } | Op::Put { h, .. } => {
+                if last {
+                    return map.get(h).copied();
+                }
+            }
+            _ => {}
+        }
+    }
+    None
+}
+
+/// First disagreement between the run of the real code and the model's answer (family `multi`; the same
+/// comparison as the generic one in `main`, with position-independent signatures so that it can drive a shrinker).
+fn model_mismatch(case: &Case, run: &ImplRun, answer: &str) -> Option<(String, String, String)> {
+    if run.problem.is_some() || answer == "(bad-op)" {
+        return None;
+    }
+    let (outs_s, model_listing) = answer.split_once('|')?;
+    let outs: Vec<&str> = outs_s.split(';').collect();
+    let result = run.result?;
+    let complete = if case.trap || result.is_none() { case.ops.len() } else { run.blocks.len() };
+    if run.blocks.len() != complete || (case.trap && result.is_some()) {
+        return Some(("model:multi:shape".into(), format!("{} blocks, result {:?}", run.blocks.len(), result), format!("{} blocks", complete)));
+    }
+    for i in 0..complete {
+        if i >= outs.len() || !block_matches(&case.ops[i], &run.blocks[i], outs[i]) {
+            return Some((
+                format!("model:multi:out:{}", case.ops[i].tag()),
+                format!("op {} ({}) printed {:?}", i + 1, case.ops[i].sexp(), String::from_utf8_lossy(&run.blocks[i])),
+                format!("{} (all: {})", outs.get(i).unwrap_or(&"<missing>"), outs_s),
+            ));
+        }
+    }
+    if !case.trap {
+        let model_result = outs.last().filter(|o| o.starts_with('e') && outs.len() == complete + 1).map(|o| o[1..].to_owned());
+        let impl_result = result.map(|c| c.to_string());
+        if model_result != impl_result || !run.tail.is_empty() {
+            return Some(("model:multi:result".into(), format!("{:?} tail {:?}", impl_result, String::from_utf8_lossy(&run.tail)), format!("{:?} (all: {})", model_result, outs_s)));
+        }
+    }
+    if model_listing != run.listing {
+        return Some(("model:multi:listing".into(), run.listing.clone(), model_listing.to_owned()));
+    }
+    None
+}
+
+/// Removes operations one at a time while the real code and the model still disagree in the same way.
+fn shrink_multi(dir: &PathBuf, case: &Case, sig: &str) -> Vec<Op> {
+    let fails = |ops: &[Op]| -> bool {
+        let run = run_impl(dir, &case.init, &case.stdin, ops, case.trap);
+        let ans = ask(&[request(&case.init, &case.stdin, ops, !case.trap)]);
+        let c = Case { family: "multi", init: case.init.clone(), ops: ops.to_vec(), trap: case.trap, ..Default::default() };
+        model_mismatch(&c, &run, &ans[0]).is_some_and(|m| m.0 == sig)
+    };
+    let mut cur = case.ops.clone();
+    let mut budget = 150;
+    loop {
+        let mut changed = false;
+        let mut i = 0;
+        while i < cur.len() && budget > 0 {
+            let mut cand = cur.clone();
+            cand.remove(i);
+            budget -= 1;
+            if !cand.is_empty() && fails(&cand) {
+                cur = cand;
+                changed = true;
+            } else {
+                i += 1;
+            }
+        }
+        if !changed || budget == 0 {
+            return cur;
+        }
+    }
+}
+
 fn build_cases(rng: &mut Rng, thorough: bool, parts: &mut Vec<String>) -> (Vec<Case>, Vec<(usize, usize)>) {
     let mut cases: Vec<Case> = vec![];
 
@@ -1529,6 +1750,28 @@ fn build_cases(rng: &mut Rng, thorough: bool, parts: &mut Vec<String>) -> (Vec<C
         let plan = random_field_plan(rng);
         if let Some(c) = build_fields_case(&plan) {
             cases.push(c);
+        }
+    }
+    // interleaved histories with several handles open at the same time: every prefix is a case
+    let n_multi = if thorough { 6_000 } else { 350 };
+    for id in 0..n_multi {
+        let (init, ops, trap) = multi_history(rng);
+        for p in 1..=ops.len() {
+            let prefix = ops[..p].to_vec();
+            let oracle = protocol_reference(&init, &prefix);
+            let prev = if p > 1 { Some(cases.len() - 1) } else { None };
+            cases.push(Case {
+                family: "multi",
+                init: init.clone(),
+                stdin: vec![],
+                ops: prefix,
+                trap,
+                oracle,
+                oracle_listing: None,
+                hist: Some(id),
+                prev,
+                ..Default::default()
+            });
         }
     }
     // close makes reusable: after CLOSE h / CLOSE every handle can be opened again
@@ -1710,6 +1953,13 @@ fn main() {
         return;
     }
     rep.exhaustive_parts.extend(parts);
+    rep.notes.push(
+        "family multi: random interleaved histories over handles 1..3 open AT THE SAME TIME on A.TXT / B.TXT (modes INPUT / OUTPUT / APPEND / RANDOM, \
+         mostly protocol-conforming, text-only ones with trapped violations); every prefix of a history is a case, so outputs, Result and the bytes of \
+         every file are compared with the model after every single operation; the bytes before / after the last operation are compared for the frame \
+         property; the shortest failing prefix is shrunk (counter multi.handles-open-together.N = most handles open together in the case)"
+            .into(),
+    );
 
     // ---- run the real code -----------------------------------------------------------------------
     let t_start = std::time::Instant::now();
@@ -1724,6 +1974,7 @@ fn main() {
 
     rep.notes.push(format!("timing: {} cases, real code {:.1}s, model (driver) {:.1}s", cases.len(), t_impl, t_start.elapsed().as_secs_f64() - t_impl));
     // ---- compare -----------------------------------------------------------------------------------
+    let mut multi_failed: std::collections::HashSet<usize> = std::collections::HashSet::new();
     for ((case, run), answer) in cases.iter().zip(runs.iter()).zip(answers.iter()) {
         let trivial = !case.ops.iter().zip(run.blocks.iter()).any(|(op, b)| match op {
             Op::Open { .. } => b.is_empty(),
@@ -1745,6 +1996,84 @@ fn main() {
         let fail = |rep: &mut Report, kind: Kind, sig: String, implementation: String, expected: String, note: &str| {
             rep.fail(Failure { kind, signature: sig, input: case.describe(), implementation, expected, note: note.to_owned() });
         };
+        if let Some(hist) = case.hist {
+            // family `multi`: the shortest failing prefix of a history is reported (shrunk), the longer ones skipped
+            if multi_failed.contains(&hist) {
+                continue;
+            }
+            rep.bump(&format!("multi.handles-open-together.{}", {
+                let mut open: std::collections::HashSet<u32> = std::collections::HashSet::new();
+                let mut most = 0;
+                for (i, op) in case.ops.iter().enumerate() {
+                    match op {
+                        Op::Open { h, .. } if run.blocks.get(i).is_some_and(|b| b.is_empty()) => {
+                            open.insert(*h);
+                        }
+                        Op::Close(hs) if hs.is_empty() => open.clear(),
+                        Op::Close(hs) => {
+                            for h in hs {
+                                open.remove(h);
+                            }
+                        }
+                        _ => {}
+                    }
+                    most = most.max(open.len());
+                }
+                most
+            }));
+            if let Some((sig, implementation, expected)) = model_mismatch(case, run, answer) {
+                multi_failed.insert(hist);
+                let dir = work_dir().join("c18-scratch-shrink");
+                let _ = std::fs::remove_dir_all(&dir);
+                std::fs::create_dir_all(&dir).expect("scratch dir");
+                std::env::set_current_dir(&dir).expect("chdir scratch");
+                let small = shrink_multi(&dir, case, &sig);
+                let c = Case { family: "multi", init: case.init.clone(), ops: small, trap: case.trap, ..Default::default() };
+                let r = run_impl(&dir, &c.init, &c.stdin, &c.ops, c.trap);
+                let a = ask(&[request(&c.init, &c.stdin, &c.ops, !c.trap)]);
+                let _ = std::env::set_current_dir(std::env::temp_dir());
+                let _ = std::fs::remove_dir_all(&dir);
+                let (input, implementation, expected) = match model_mismatch(&c, &r, &a[0]) {
+                    Some(m) if m.0 == sig => (format!("(shrunk from a history of {} operations) {}", case.ops.len(), c.describe()), m.1, m.2),
+                    _ => (case.describe(), implementation, expected),
+                };
+                rep.fail(Failure {
+                    kind: Kind::ModelVsImpl,
+                    signature: sig,
+                    input,
+                    implementation,
+                    expected,
+                    note: "interleaved history over several handles open at the same time: outputs, final Result and bytes on disk after every operation vs RbModel.Files.step".into(),
+                });
+                continue;
+            }
+            // frame: only the file the last operation's handle is open on (or the file it opens) may have changed
+            if let (Some(prev), None) = (case.prev, &run.problem) {
+                let before = parse_listing(&runs[prev].listing);
+                let after = parse_listing(&run.listing);
+                let allowed = match frame_allowed(&case.ops, &run.blocks) {
+                    Some(Nm::P(k)) => Some(k.to_string()),
+                    _ => None,
+                };
+                let mut names: Vec<&String> = before.keys().chain(after.keys()).collect();
+                names.sort();
+                names.dedup();
+                for k in names {
+                    if Some(k) != allowed.as_ref() && before.get(k) != after.get(k) {
+                        multi_failed.insert(hist);
+                        rep.fail(Failure {
+                            kind: Kind::ImplVsProperty,
+                            signature: format!("property:multi:frame:{}", case.ops.last().map(|o| o.tag()).unwrap_or("?")),
+                            input: case.describe(),
+                            implementation: format!("file {} after the last operation: {:?}", k, after.get(k)),
+                            expected: format!("unchanged: {:?}", before.get(k)),
+                            note: "frame: an operation changes at most the file its handle is open on (bytes on disk after the history without / with its last operation)".into(),
+                        });
+                        break;
+                    }
+                }
+            }
+        }
         if let Some(plan) = &case.plan {
             // FIELD families: the property check is `fields_violation`; a failing history is shrunk first
             if let Some((sig, implementation, expected)) = fields_violation(case, run) {
